@@ -626,7 +626,9 @@ pub fn gen_case(rng: &mut Rng, tier: &str, profile: &str, stats: &mut Stats) -> 
     let local: [u8; 32] = rng.bytes(32).try_into().unwrap();
     let ip = profile == "C16" || (profile != "C07" && profile != "C08" && rng.chance(1, 3));
     // pending-timeout regimes: already elapsed (0), never elapses, elapses mid-sequence (real sleeps)
-    let regime = if tier == "thorough" { rng.below(12) } else { rng.below(40) };
+    let directed_c07 = profile == "C07" && rng.chance(1, 5);
+    let directed_c16b = profile == "C16" && rng.chance(1, 5);
+    let regime = if directed_c07 || directed_c16b { 0 } else if tier == "thorough" { rng.below(12) } else { rng.below(40) };
     let (pending_ms, sleeps) = match regime {
         0 => (200u64, true),
         r if r % 2 == 1 => (0, false),
@@ -690,7 +692,60 @@ pub fn gen_case(rng: &mut Rng, tier: &str, profile: &str, stats: &mut Stats) -> 
         }
         vals.push(v);
     }
-    if ip && rng.chance(1, 3) {
+    if directed_c07 {
+        // directed prefix: a full bucket with several disconnected and connected nodes, a pending
+        // candidate whose status changes while it waits, the timeout elapsing, then an access
+        stats.bump("gen.case.directed-pending-status-change");
+        let hb = hot[0];
+        let mut fresh = 2_000_000u64;
+        let ndis = rng.range(2, 5);
+        for j in 0..16 {
+            let k = key_at(&local, hb, rng);
+            ops.push(format!("kins {} v{}:- {} o", hx(&k), fresh, if j < ndis { "d" } else { "c" }));
+            fresh += 1;
+        }
+        let pk = key_at(&local, hb, rng);
+        ops.push(format!("kins {} v{}:- c {}", hx(&pk), fresh, if rng.chance(1, 2) { "i" } else { "o" }));
+        ops.push("kdump".into());
+        match rng.below(3) {
+            0 => ops.push(format!("kstatus {} d -", hx(&pk))),
+            1 => ops.push(format!("kstatus {} c o", hx(&pk))),
+            _ => {}
+        }
+        ops.push("ksleep 450".into());
+        ops.push(format!("kentry {}", hx(&pk)));
+        ops.push("kdump".into());
+        ops.push("ktake".into());
+    }
+    if directed_c16b {
+        // directed prefix: bucket already holding two records of one /24, a pending candidate from
+        // elsewhere, a slot freed before its timeout, then the candidate re-inserted with a record
+        // of that /24 (and, as a variant, updated in place)
+        stats.bump("gen.case.directed-pending-reinsert");
+        let hb = hot[0];
+        let mut fresh = 3_000_000u64;
+        let mut members: Vec<[u8; 32]> = Vec::new();
+        for j in 0..16 {
+            let k = key_at(&local, hb, rng);
+            members.push(k);
+            let sub = if j == 3 || j == 9 { "0" } else { "-" };
+            ops.push(format!("kins {} v{}:{} {} o", hx(&k), fresh, sub, if j < 2 { "d" } else { "c" }));
+            fresh += 1;
+        }
+        let pk = key_at(&local, hb, rng);
+        ops.push(format!("kins {} v{}:1 c o", hx(&pk), fresh));
+        fresh += 1;
+        ops.push(format!("krm {}", hx(&members[rng.range(4, 8) as usize])));
+        if rng.chance(1, 2) {
+            ops.push(format!("kins {} v{}:0 c o", hx(&pk), fresh));
+        } else {
+            ops.push(format!("kupd {} v{}:0 -", hx(&pk), fresh));
+            ops.push("ksleep 450".into());
+            ops.push(format!("kentry {}", hx(&pk)));
+        }
+        ops.push("kdump".into());
+    }
+    if ip && !directed_c16b && rng.chance(1, 3) {
         // directed prefix: a full bucket of records without IPv4 whose first node is disconnected,
         // one /24 driven close to the table limit in other buckets, then a pending candidate of
         // that /24, more inserts of that /24 elsewhere, and finally an access that promotes it.
